@@ -110,11 +110,22 @@ func (x *c03ctx) runK19() {
 			continue
 		}
 		nNode := 0
-		for i := 0; i < st.NumFields(); i++ {
-			if isNodePtr(st.Field(i).Type()) {
-				nNode++
+		var countNodes func(ss *types.Struct, d int)
+		countNodes = func(ss *types.Struct, d int) {
+			for i := 0; i < ss.NumFields(); i++ {
+				ft := ss.Field(i).Type()
+				if isNodePtr(ft) {
+					nNode++
+					continue
+				}
+				if nn := core.NamedOf(ft); nn != nil && nn.Obj().Pkg() == idr.Types && nn.Obj() != nodeObj && d < 2 {
+					if inner, ok := nn.Underlying().(*types.Struct); ok {
+						countNodes(inner, d+1)
+					}
+				}
 			}
 		}
+		countNodes(st, 0)
 		if nNode < 2 || c.MethodOfPkg(idr.Types, name, "Read") == nil || c.MethodOfPkg(idr.Types, name, "Release") == nil {
 			continue
 		}
@@ -146,7 +157,7 @@ func (x *c03ctx) runK19() {
 		var fields []*types.Var
 		for _, m := range methods {
 			for _, w := range core.Writes(m) {
-				if w.Kind == "field" && w.Field != nil && isNodePtr(w.Field.Type()) && w.Owner != nil && w.Owner.Obj() == tn && linkLoad(w.Val) {
+				if w.Kind == "field" && w.Field != nil && isNodePtr(w.Field.Type()) && w.Owner != nil && w.Owner.Obj() != nodeObj && linkLoad(w.Val) {
 					dup := false
 					for _, f := range fields {
 						if f == w.Field {
@@ -170,6 +181,13 @@ func (x *c03ctx) runK19() {
 			}
 			entry := map[*ssa.Function]k19state{}
 			exit := map[*ssa.Function]k19state{}
+			// per-context summaries: exit state of a method for a given entry state (context-sensitive in the one bit)
+			type ctxKey struct {
+				f  *ssa.Function
+				in k19state
+			}
+			ctxExit := map[ctxKey]k19state{}
+			inProgress := map[ctxKey]bool{}
 			type site struct {
 				in ssa.Instruction
 				st k19state
@@ -214,10 +232,21 @@ func (x *c03ctx) runK19() {
 							}
 							if cf != nil && isMethod[cf] {
 								entry[cf] = k19join(entry[cf], s)
-								if e := exit[cf]; e != k19Bottom {
-									s = e
-								} else {
-									// not yet summarised: assume the callee leaves the state as it found it (refined by iteration)
+								k := ctxKey{cf, s}
+								if e, ok := ctxExit[k]; ok {
+									if e != k19Bottom {
+										s = e
+									}
+								} else if !inProgress[k] && s != k19Bottom {
+									inProgress[k] = true
+									e := analyse(cf, s, false)
+									inProgress[k] = false
+									ctxExit[k] = e
+									if e != k19Bottom {
+										s = e
+									}
+								} else if e := exit[cf]; e != k19Bottom {
+									s = k19join(s, e) // recursive cycle: fall back to the context-insensitive summary
 								}
 							}
 						case *ssa.FieldAddr:
